@@ -584,6 +584,28 @@ func faultUnit(si int) harness.Unit {
 			c.Violate("fault-setup", err.Error(), nil, nil)
 			return
 		}
+		// the unused-bits octet of the signature BIT STRING: every value 1..7 on 10 certificates (a
+		// value k only parses when the signature's last byte has k trailing zero bits)
+		for n := 0; n < 10; n++ {
+			d2, err := gx509.CreateCertificate(t, s.ca, subj, s.key)
+			if err != nil {
+				break
+			}
+			q, err := gx509.ParseCertificate(d2)
+			if err != nil || q.CheckSignatureFrom(s.ca) != nil {
+				break
+			}
+			ub := bytes.LastIndex(d2, q.Signature) - 1
+			for k := byte(1); k <= 7; k++ {
+				bad := append([]byte{}, d2...)
+				bad[ub] = k
+				c.Add("evaluations", 1)
+				c.Distinct("nontrivial", bad)
+				if r, err := gx509.ParseCertificate(bad); err == nil && r.CheckSignatureFrom(s.ca) == nil {
+					c.Violate(fmt.Sprintf("fault-undetected:signature-unused-bits:%s", s.name), fmt.Sprintf("certificate signed by %s still verifies after the unused-bits octet of the signature BIT STRING was changed 00->%02x", s.name, k), nil, nil)
+				}
+			}
+		}
 		p, err := gx509.ParseCertificate(der)
 		if err != nil || p.CheckSignatureFrom(s.ca) != nil {
 			c.Note("base certificate does not verify for %s; byte faults skipped (reported by the certificate unit)", s.name)
@@ -615,7 +637,12 @@ func faultUnit(si int) harness.Unit {
 		for i := tbsOff; i < tbsOff+len(p.RawTBSCertificate); i++ {
 			try("tbs", i)
 		}
-		for i := sigOff; i < sigOff+len(p.Signature); i++ {
+		// the whole signatureValue BIT STRING: tag, length, unused-bits octet and contents
+		bitStart := sigOff - 1
+		for bitStart > 0 && der[bitStart] != 0x03 {
+			bitStart--
+		}
+		for i := bitStart; i < sigOff+len(p.Signature); i++ {
 			try("signature", i)
 		}
 		c.Sample(fmt.Sprintf("every byte of TBS (%d) and signature value (%d) of a certificate signed by %s x {b^1,b^0x80,00,ff}", len(p.RawTBSCertificate), len(p.Signature), s.name))
@@ -626,7 +653,7 @@ func faultUnit(si int) harness.Unit {
 var Prop = &harness.Prop{
 	ID:    "C09",
 	Level: "exploration",
-	Rule: "one-at-a-time product: 58 template variations (serials incl. negative/20-byte, names, validity boundaries, every KeyUsage bit, every ExtKeyUsage, basic constraints/path lengths, SAN kinds, name constraints, policies, CRL DP/AIA, extra extension, key ids) x signer {SM2, RSA-2048, P-256, P-384} x signature algorithm {unset + the signer's family; all 9 incl. mismatching ones on the base template}; CSRs (5 templates) and CRLs (CreateCRL, CreateRevocationList x 9 algorithms x 3 revoked sets) likewise. For every object inside the premise: creation, parse-back field by field, verification under the issuer, failure under other keys. Fault enumeration: every byte of the signed part and of the signature value of one certificate per signer x {b^1,b^0x80,00,ff} must fail to parse or verify. Distinct/non-trivial = distinct case labels / mutated DERs.",
+	Rule: "one-at-a-time product: 58 template variations (serials incl. negative/20-byte, names, validity boundaries, every KeyUsage bit, every ExtKeyUsage, basic constraints/path lengths, SAN kinds, name constraints, policies, CRL DP/AIA, extra extension, key ids) x signer {SM2, RSA-2048, P-256, P-384} x signature algorithm {unset + the signer's family; all 9 incl. mismatching ones on the base template}; CSRs (5 templates) and CRLs (CreateCRL, CreateRevocationList x 9 algorithms x 3 revoked sets) likewise. For every object inside the premise: creation, parse-back field by field, verification under the issuer, failure under other keys. Fault enumeration: every byte of the signed part and of the signatureValue BIT STRING (tag, length, unused-bits octet, contents) of one certificate per signer x {b^1,b^0x80,00,ff} must fail to parse or verify. Distinct/non-trivial = distinct case labels / mutated DERs.",
 	Assumptions: []string{"RSA/ECDSA issuer certificates are created with Go's crypto/x509 and parsed by the package", "signature values are randomised inside the library (not observed)"},
 	Bounds:      func(tier string) string { return "complete for the stated alphabets in both tiers" },
 	Units: func(tier string) []harness.Unit {
